@@ -8,6 +8,7 @@ package main
 
 import (
 	"fmt"
+	"go/constant"
 	"go/token"
 	"go/types"
 	"sort"
@@ -622,13 +623,84 @@ func ruleOperationSelection(r *Run) {
 					guarded = true
 				}
 			}
-			_ = ia
+			// and the document must be known to define no second operation: the load lies on
+			// the side of a test of len(<the indexed list>) on which the length is at most one
+			// (`== 1`, `case 1:`, the else of `> 1`, …). `len(...) > 0` proves the index only.
+			single := false
+			for _, i2 := range allInstrs(fn) {
+				iff, ok := i2.(*ssa.If)
+				if !ok {
+					continue
+				}
+				if side := atMostOneSide(iff, ia.X); side != nil && len(side.Preds) == 1 && (side == ld.Block() || side.Dominates(ld.Block())) {
+					single = true
+				}
+			}
+			r.Check(single, rule, fnName(fn), "positional operation is the only one", r.P.pos(ld.Pos()),
+				"the operation is taken by position only where the document is known to hold a single operation",
+				"an operation is picked from the document by position on a path where the document may define several operations (no test that len(Operations) is 1 guards it): a request that does not say which of them it means is executed — the first one, possibly a mutation — instead of being rejected as ambiguous")
 			r.Check(guarded, rule, fnName(fn), "operation taken by position", r.P.pos(ld.Pos()),
 				"the document's only operation is used only where the request names no operation",
 				"an operation is picked from the document by position on a path where the request carries an operationName: a request naming an operation the document does not define is then executed instead of being answered with a validation error by the gateway alone")
 		}
 	}
 	r.AtLeast(rule, "positional operation selections", n, 1)
+}
+
+// atMostOneSide: iff tests len(list) against a constant; the successor on which the length is
+// known to be at most one, or nil.
+func atMostOneSide(iff *ssa.If, list ssa.Value) *ssa.BasicBlock {
+	bo, ok := iff.Cond.(*ssa.BinOp)
+	if !ok {
+		return nil
+	}
+	isLen := func(v ssa.Value) bool {
+		c, ok := v.(*ssa.Call)
+		if !ok {
+			return false
+		}
+		b, ok := c.Call.Value.(*ssa.Builtin)
+		return ok && b.Name() == "len" && len(c.Call.Args) == 1 && sameValue(unwrap(c.Call.Args[0]), unwrap(list))
+	}
+	constOf := func(v ssa.Value) (int64, bool) {
+		k, ok := v.(*ssa.Const)
+		if !ok || k.Value == nil || k.Value.Kind() != constant.Int {
+			return 0, false
+		}
+		return k.Int64(), true
+	}
+	op := bo.Op
+	var k int64
+	if kk, ok := constOf(bo.Y); ok && isLen(bo.X) {
+		k = kk
+	} else if kk, ok := constOf(bo.X); ok && isLen(bo.Y) {
+		k = kk
+		// mirror `k op len` into `len op' k`
+		switch op {
+		case token.LSS:
+			op = token.GTR
+		case token.GTR:
+			op = token.LSS
+		case token.LEQ:
+			op = token.GEQ
+		case token.GEQ:
+			op = token.LEQ
+		}
+	} else {
+		return nil
+	}
+	t, f := iff.Block().Succs[0], iff.Block().Succs[1]
+	switch {
+	case op == token.EQL && (k == 1 || k == 0):
+		return t
+	case op == token.NEQ && (k == 1 || k == 0):
+		return f
+	case op == token.LEQ && k <= 1, op == token.LSS && k <= 2:
+		return t
+	case op == token.GTR && k <= 1, op == token.GEQ && k <= 2:
+		return f
+	}
+	return nil
 }
 
 func ruleGate(r *Run) {
